@@ -41,6 +41,20 @@ Checks that were strengthened because a seeded change (or the triage of one) sho
   valid gzip bodies *through* the restart path, so the attribution now also requires the input predicate under which the
   unchanged parser restarts at all (zlib-wrapped data under `deflate`, or data invalid for the coding). A restart on a valid
   gzip / raw deflate / LZMA body is keyed `@unexpected_restart` and reported.
+* **C04** — interim `100 Continue` responses were not generated at all; C04-3 (a 100 that arrives after the whole request is
+  treated as the final response) was missed until the grammar learnt to emit them (`p_interim`) and C04 got a directed slice.
+* **C10** — the steady-state memory workload only completed transactions request-first and let the harness destroy finished
+  transactions itself, which masked C10-3 (transactions whose response finishes first are never auto-destroyed). It now has
+  early-response, alternating and split-first-line schedules and runs in streaming mode proper (`tx_auto_destroy` +
+  `htp_connp_tx_freed()` only, harness `DESTROY_DONE=2`).
+* **C11** — every trigger used an origin-form target; C11-3 (no host-missing flag when the target is absolute-form or a
+  CONNECT authority) was missed. The target form is now varied independently of the trigger.
+* **C16** — server bytes never shared a chunk with the end of the CONNECT answer, so C16-3 (response side runs past the 2xx
+  while the request side is suspended) was missed. Adding that layout also exposed a genuine defect of the unchanged tree on the
+  407 path (repaired, section 6.1) and a deviation of the driver from QUICK_START 2.2.6/2.2.7 (section 7).
+* **C18** — no corpus input made a list, table or builder grow, so the failure of the growing `realloc` was never among the
+  enumerated faults and C18-3 (capacity doubled before the failed reallocation) was missed; eight container-growth inputs were
+  added (70 headers, 40 trailers, 40 pipelined transactions with log messages, 80 parameters/cookies, 40 multipart parts, ...).
 * **C08-1/2, C19-1/2** were the acceptance tests of the two checks built last; C19-1 (a process-wide decompression buffer) is
   invisible to ThreadSanitizer because zlib does the writes, and is caught by the solo-vs-shared dump comparison under baton
   interleavings; C19-2 (self-organising best-fit map) is caught by the deep configuration hash and by TSan.
